@@ -35,13 +35,19 @@ def main():
     root = tempfile.mkdtemp(prefix="seed-")
     rep = {"seed": sid}
     try:
-        subprocess.run(["rsync", "-a", "--exclude", ".git", "/repo/", root + "/"], check=True)
-        subprocess.run(["git", "init", "-q"], cwd=root, check=True)
-        rc, out = sh(["git", "apply", "--whitespace=nowarn", os.path.join(os.path.abspath(src), "patch.diff")], root)
-        rep["applies"] = rc == 0
-        if rc != 0:
+        # a clone of /repo's HEAD: the patch was written against an earlier commit, so it is applied with a
+        # 3-way merge (later "fix:" commits may have touched neighbouring lines); the rebased patch is what
+        # is applied / reverted from then on
+        subprocess.run(["git", "clone", "-q", "--shared", "/repo", root], check=True)
+        rc, out = sh(["git", "apply", "--3way", "--whitespace=nowarn", os.path.join(os.path.abspath(src), "patch.diff")], root)
+        rep["applies"] = rc == 0 and "with conflicts" not in out
+        if not rep["applies"]:
             print(json.dumps(rep), out[-800:])
             return 1
+        rebased = os.path.join(root, ".git", "seed.rebased.diff")
+        with open(rebased, "w") as fh:
+            subprocess.run(["git", "diff", "HEAD"], cwd=root, stdout=fh, check=True)
+        sh(["git", "reset", "-q"], root)
         rc, out = sh("go build ./... && go vet -vet=off ./... 2>/dev/null; go build ./...", root)
         rep["compiles"] = rc == 0
         rc, out = sh("go test -vet=off -count=1 $(go list ./... | grep -v mathext/zipf)", root)
@@ -54,13 +60,13 @@ def main():
         rep["demo_fails_with_patch"] = rc != 0
         rep["demo_output_with_patch"] = out[-700:]
         # without the patch
-        sh(["git", "apply", "-R", "--whitespace=nowarn", os.path.join(os.path.abspath(src), "patch.diff")], root)
+        sh(["git", "apply", "-R", "--whitespace=nowarn", rebased], root)
         rc, out = sh(meta["demo_cmd"], root)
         rep["demo_passes_without_patch"] = rc == 0
         if rc != 0:
             rep["demo_output_without_patch"] = out[-500:]
         os.remove(place)
-        sh(["git", "apply", "--whitespace=nowarn", os.path.join(os.path.abspath(src), "patch.diff")], root)
+        sh(["git", "apply", "--whitespace=nowarn", rebased], root)
         # our checks
         env = dict(ENV, VERIF_REPO=root, VERIF_EVIDENCE_DIR=os.path.join(root, ".verif-evidence"))
         rep["checks"] = {}
